@@ -29,8 +29,8 @@ def shards(tier):
             out.append(dict(dev=dev, op="transfer", sgeo=sg, dgeo=dg, k=1, steps=2 if tier == "quick" else 3, partition_by="auto", neg=True,
                             washes=[1, 2, 3, 4, "flush", "reuse", 5, "wash"], ncand=2 if tier == "quick" else 4))
             out.append(dict(dev=dev, op="transfer", sgeo=sg, dgeo=dg, k=1, steps=2, partition_by="auto", neg=True, diti=True, washes=[1, 3, "flush", "reuse"]))
-            for bad in ("vols+1", "dst+1"):
-                out.append(dict(dev=dev, op="transfer", sgeo=sg, dgeo=dg, k=2, steps=2, partition_by="auto", bad=bad, ncand=2, washes=[1]))
+            for bad in ("vols+1", "dst+1", "vols-1", "src-1"):
+                out.append(dict(dev=dev, op="transfer", sgeo=sg, dgeo=dg, k=3 if bad.endswith("-1") else 2, steps=2, partition_by="auto", bad=bad, ncand=2, washes=[1]))
     return out
 
 
